@@ -42,6 +42,17 @@ THINGS = {
     "refguard": ("root.rl.borrow()", "std::cell::Ref<'static, u32>", False, False),
     "refmut": ("root.rl.borrow_mut(mc)", "std::cell::RefMut<'static, u32>", False, False),
     "nested": ("Some(vec![root.g])", "Option<Vec<Gc<'static, Lock<u32>>>>", False, False),
+    # pointers that come out of a conversion: the conversion must hand the brand through unchanged
+    "unsize_dyn": ("gc_arena::unsize!(Gc::new(mc, 7u32) => dyn std::fmt::Debug)", "Gc<'static, dyn std::fmt::Debug>", False, False),
+    "unsize_slice": ("gc_arena::unsize!(Gc::new(mc, [1u8, 2, 3]) => [u8])", "Gc<'static, [u8]>", False, False),
+    "unsize_rooted": ("gc_arena::unsize!(root.g => dyn std::fmt::Debug)", "Gc<'static, dyn std::fmt::Debug>", False, False),
+    "erased": ("Gc::erase(root.g)", "Gc<'static, ()>", False, False),
+    "weak_erased": ("GcWeak::erase(root.w)", "GcWeak<'static, ()>", False, False),
+    "upgraded": ("root.w.upgrade(mc).unwrap()", "Gc<'static, Lock<u32>>", False, False),
+    "resurrected": ("root.w.resurrect(fc).unwrap()", "Gc<'static, Lock<u32>>", False, True),
+    "fetched": ("{ let h = root.set.stash::<Rootable![Lock<u32>]>(mc, root.g); root.set.fetch(&h) }", "Gc<'static, Lock<u32>>", False, False),
+    "thinned": ("Gc::as_thin(gc_arena::GcSliceBuilder::<u8>::new(3).write_slice_with(mc, |i| i as u8))", "gc_arena::GcThinSlice<'static, u8>", False, False),
+    "fattened": ("Gc::as_fat(Gc::as_thin(gc_arena::GcSliceBuilder::<u8>::new(3).write_slice_with(mc, |i| i as u8)))", "gc_arena::GcSlice<'static, u8>", False, False),
 }
 
 # entry -> (template with {PRE} {BODY} {POST}, closure may return a value, root is a 'gc-long reference, has fc)
@@ -97,6 +108,10 @@ CROSS = {
     "unlock_foreign": "let _ = r1.g.unlock(mc2);",
     "barrier_foreign": "mc2.backward_barrier(Gc::erase(r1.g), None);",
     "barrier_foreign_child": "mc2.forward_barrier(Some(Gc::erase(r2.g)), Gc::erase(r1.g));",
+    "alloc_holding_foreign_unsized": "let _ = Gc::new(mc2, (r2.g, gc_arena::unsize!(r1.g => dyn std::fmt::Debug)));",
+    "alloc_holding_foreign_erased": "let _ = Gc::new(mc2, (r2.g, Gc::erase(r1.g)));",
+    "alloc_holding_foreign_upgraded": "let _ = Gc::new(mc2, (r2.g, r1.w.upgrade(mc1).unwrap()));",
+    "alloc_holding_foreign_fetched": "let h = r1.set.stash::<Rootable![Lock<u32>]>(mc1, r1.g); let _ = Gc::new(mc2, (r2.g, r1.set.fetch(&h)));",
 }
 
 REENTRANT = ["arena.collect_debt();", "let _ = arena.mark_debt();", "let _ = arena.finish_marking();", "arena.cycle_debt();", "arena.finish_cycle();",
